@@ -359,7 +359,8 @@ func newH1Env(seed int64) *h1Env {
 	}
 	for _, r := range h1Routes {
 		// a short read-header limit: it must only ever apply to request heads
-		fc := fwdCfg{Name: "fwd", Localhost: "allow", ReadHeaderTimeout: h1HeaderLimit, Deny: []string{`denied\.test$`}, LogHTTP: h1LogHTTP}
+		fc := fwdCfg{Name: "fwd", Localhost: "allow", ReadHeaderTimeout: h1HeaderLimit, Deny: []string{`denied\.test$`}, LogHTTP: h1LogHTTP,
+			Creds: []string{h1SiteUser + ":" + h1SitePass + "@origin.test:*"}}
 		switch r {
 		case "upstream":
 			fc.Upstream = "http://" + addrA
@@ -481,10 +482,13 @@ type h1HeaderCase struct {
 		Xff      []string `json:"xff"`
 		Fill     []string `json:"fill"`
 		Upgrade  bool     `json:"upgrade"`
+		SiteAuth bool     `json:"siteAuth"`
 		MayAddAE bool     `json:"mayAddAE"`
 		NoUA     bool     `json:"noUA"`
 	} `json:"fwd"`
 }
+
+const h1SiteUser, h1SitePass = "siteuser", "sitepass"
 
 type field0 struct {
 	N string `json:"n"`
@@ -723,6 +727,13 @@ func (he *h1Env) headerCase(i int, c *h1HeaderCase) map[string]any {
 		}
 		if len(hop[n]) != len(vs) || strings.Join(hop[n], "\x00") != strings.Join(vs, "\x00") {
 			fail(fmt.Sprintf("field %s: hop saw %q, client sent %q", n, hop[n], vs))
+		}
+	}
+	// site credentials (--credentials for origin.test) are for a request that brings none of its own
+	if c.Fwd.SiteAuth {
+		managed["authorization"] = true
+		if a := hop["authorization"]; len(a) != 1 || a[0] != "Basic "+b64(h1SiteUser+":"+h1SitePass) {
+			fail(fmt.Sprintf("field authorization: the request brought none, the site's credentials are configured, the hop saw %q", a))
 		}
 	}
 	for n, vs := range hop {
